@@ -1378,9 +1378,17 @@ types – and EITHER the top-level outputs are a valid value of the declared
 output struct (`t`, `t[]` or `map<t>` for a mapped top-level call), OR the run
 stopped where the real run time stops BY DESIGN: at a call whose `disabled`
 modifier resolved to NULL (`Res.nullDisabled`; `Fork.disabled`: "disabled is
-bound to a null value, which is not permitted"). Null conforms to `bool` as to
-every type, so no static check and no assumption on the stages can exclude
-this (`disabled_null_witness`); programs without `disabled` modifiers never stop
+bound to a null value, which is not permitted").  The theorem is WEAKER than
+"no run-time error" by exactly this disjunct.  A null control has three sources:
+(a) a stage returns null for the `bool` output that feeds the control, or a
+top-level input is null – null conforms to `bool` as to every type, so no static
+check and no assumption on the stages excludes it (`disabled_null_witness`); (b)
+the control is fed by a call of the same body that is itself disabled (its outputs
+are null although NO stage returned null) – excluded by the hypothesis `ctlPipe`
+of `progOk` (third audit pass, A4; the real code refuses such a program when it
+is invoked: `disabled_fed_by_disabled_witness`); (c) the control is fed by an
+output of a nested pipeline whose producing call is disabled – NOT excluded.
+Programs without `disabled` modifiers never stop
 (`program_sound_no_disabled_partial`).
 
 Proof: induction over the calls of a body in dependency order
@@ -1413,8 +1421,8 @@ theorem program_outcomes_partial (P : Prog) (O : Oracle) (top : CallStm) (n : Na
       valid (top.sig sh).whole out = true := by
   by_cases hu : (P.pipes.all fun p => umapPipe P top.callee.name p) = true
   · have hfull : progOk P top = true := by
-      simp only [progOk, progOkCore] at hP ⊢
-      simp only [hP, hu, Bool.and_self]
+      simp only [progOk, progOkCore, Bool.and_eq_true] at hP ⊢
+      exact ⟨⟨hP.1, hu⟩, hP.2⟩
     obtain ⟨sh, hchk, h⟩ := runProgram_sound P O top n hO hfull hn
     rcases h with hnd | ⟨out, hr, hv⟩
     · exact Or.inr (Or.inl (by simp [invokeAndRun, hu, hnd]))
@@ -1595,6 +1603,31 @@ theorem disabled_null_witness :
     valid (.base .bool) .null = true ∧
     (runProgram { pipes := [pQ kb] } oracleF 2 (topQ kb .null)).map (fun s => s.2.calls) = .nullDisabled :=
   ⟨by decide, by decide, by decide, rfl⟩
+
+/-- THIRD AUDIT PASS, A4: the stop at a null `disabled` value is reachable without
+any stage returning null –
+`call G(what = true) using (disabled = self.d)`, `call E(what = 1) using (disabled = G.result)`,
+`d = true`: `G` is disabled, `G.result` is null, the control of `E` is null.  Every
+hypothesis of rounds 5–7 holds, the stages echo their inputs, the model's run is
+`nullDisabled`; the real `InvokePipeline` refuses the program ("disabled cannot be
+bound to a null value"; with a run-time `d`: "disabled modifier cannot be bound to a
+value that may be null").  `ctlPipe` now keeps it out of `progOk`. -/
+theorem disabled_fed_by_disabled_witness :
+    let stG : Callee := { name := [0x47], isStage := true, params := [(ka, .base .bool)], outs := .cons kr (.base .bool) .nil }
+    let stE : Callee := { name := [0x45], isStage := true, params := [(ka, .base .int)], outs := .cons kr (.base .int) .nil }
+    let dis (e : Exp) : Mods := { kwLocal := false, kwPreflight := false, kwVolatile := false, usings := [.dis e] }
+    let pP : Pipeline :=
+      { name := cP, ins := [(kd, .base .bool)], outs := .cons kr (.base .int) .nil,
+        calls := [
+          { id := [0x47], callee := stG, binds := [(ka, .plain (.bool true))], wild := none, mods := dis (.self kd []) },
+          { id := [0x45], callee := stE, binds := [(ka, .plain (.int 1))], wild := none, mods := dis (.call [0x47] [kr]) }],
+        ret := [(kr, .plain (.call [0x45] [kr]))], retWild := none, retain := [] }
+    let top : CallStm := { id := cP, callee := pP.callee, binds := [(kd, .plain (.bool true))], wild := none, mods := noMods }
+    let echo : Oracle := fun _ ins => .obj [(kr, (ins.lookup ka).getD (.bool true))]
+    [pP].all (okPipe { pipes := [pP] }) = true ∧ validTop top = true ∧ fits { pipes := [pP] } 2 top.callee = true ∧
+    (runProgram { pipes := [pP] } echo 2 top).map (fun s => s.2.calls) = .nullDisabled ∧
+    ctlPipe pP = false ∧ progOk { pipes := [pP] } top = false :=
+  ⟨by decide, by decide, by decide, rfl, by decide, by decide⟩
 
 /-- the weakened split hypothesis: splitting over a `map<string>` INPUT into a
 `file` parameter needs no legal keys (the keys are not delivered) – the hypothesis
